@@ -150,7 +150,8 @@ prop("C05", "c05",
      "signed payload. Cases within 2 s of a time boundary are don't-care. Non-trivial: >= 1 mutation; distinct by (key set, "
      "assertions, header, mutation kinds).",
      [dict(run="^TestOnlyValidTokensYieldSubjects$", quick=2000, thorough=120000, shards_thorough=12),
-      dict(run="^TestRequiredScopesAreMatched$", quick=1500, thorough=80000, shards_thorough=4)],
+      dict(run="^TestRequiredScopesAreMatched$", quick=1500, thorough=80000, shards_thorough=4),
+      dict(run="^FuzzTokenBytes$", fuzz=True, quick=1, thorough=1, shards_thorough=1, fuzztime_thorough=240, fuzz_workers=6)],
      ["tokens without exp have no upper validity bound (accepted by the reference)", "certificate validation of JWKs is not part of the statement (C10 covers certificate expiry for caching)"],
      level="Randomised generated search over tokens x key sets x assertion configurations on the assembled decision service "
            "against an independent reference verifier; the converse direction is measured only; bounded exploration.",
@@ -387,7 +388,9 @@ prop("C19", "c19",
       dict(run="^TestKeyStoreReloadsAreRejectedNotFatal$", quick=600, thorough=6000, shards_thorough=4),
       dict(run="^TestKeyStoreTruncationExhaustive$", quick=1, thorough=1, shards_thorough=1),
       dict(run="^TestHostileRemoteResponsesYieldErrorResponses$", quick=800, thorough=8000, shards_thorough=6),
-      dict(run="^TestRawRequestsDoNotStopTheService$", quick=150, thorough=1500, shards_thorough=2)],
+      dict(run="^TestRawRequestsDoNotStopTheService$", quick=150, thorough=1500, shards_thorough=2),
+      dict(run="^FuzzRuleSetBytes$", fuzz=True, quick=1, thorough=1, shards_thorough=1, fuzztime_thorough=240, fuzz_workers=6),
+      dict(run="^FuzzKeyStoreBytes$", fuzz=True, quick=1, thorough=1, shards_thorough=1, fuzztime_thorough=240, fuzz_workers=4)],
      ["a panic recovered by heimdall's own recovery middleware and answered with an error response is not a violation",
       "panics are observed by running the entry points under recover(); in production the same call sites run on bare goroutines"],
      level="Randomised structured mutation plus bounded exhaustive truncation of reloadable and remote inputs against the "
